@@ -74,6 +74,10 @@ func RunPlan(p *plan.Plan, keepLog bool) *plan.Result {
 	default:
 		panic("unknown workload " + p.Workload)
 	}
+	if unwound {
+		unwound = false
+		res.Stats["process_unwound"] = 1
+	}
 	for k, v := range res.Stats {
 		addStat(k, v)
 	}
@@ -136,7 +140,7 @@ func SamplePlan(p *plan.Plan) interface{} {
 // Poisoned reports whether a run found the process-wide state of the package
 // under test modified; such a process must not execute further runs.
 func Poisoned(res *plan.Result) bool {
-	if res.Stats["globals_changed"] > 0 {
+	if res.Stats["globals_changed"] > 0 || res.Stats["process_unwound"] > 0 {
 		return true
 	}
 	for _, v := range res.Violations {
